@@ -24,12 +24,14 @@ THEOREMS = [
     "GoaktVerif.C27.witnessRace_facts",
     "GoaktVerif.C27.witnessFqFull_facts",
     "GoaktVerif.C27.witnessSysDown_facts",
-    "GoaktVerif.C27.C27_refuted",
     "GoaktVerif.C27.C27_partial",
-    "GoaktVerif.C27.noRace_step",
+    "GoaktVerif.C27.C27_no_handler_drop",
+    "GoaktVerif.C27.postBarrier_step",
+    "GoaktVerif.C27.barrier_run",
     "GoaktVerif.C27.exitClean_step",
     "GoaktVerif.C27.C27_close_complete",
     "GoaktVerif.C27.C27_partial_close",
+    "GoaktVerif.C27.C27_holds",
     "GoaktVerif.C27.GC.ginv_run",
     "GoaktVerif.C27.C27_single_coalescer",
     "GoaktVerif.C27.C27_fq_has_slack",
@@ -42,6 +44,15 @@ GO2LEAN = {"targets": [
 # call order of the double-checked creation in getCoalescer and of Close, re-extracted from the source on
 # every run (the model GC.gstep mirrors it: lookup, [NetClient], lock, lookup again, create+Set, unlock)
 FACTS = [{
+    # the submit/close barrier the model's `barrier` pc and `begin` guard mirror (fix 7baca6b)
+    "file": "internal/remoteclient/coalescer.go",
+    "suffixes": "inflight.RLock,inflight.RUnlock,inflight.Lock,inflight.Unlock,closeOnce.Do,wg.Wait",
+    "expect": {
+        "coalescer.submit": ["inflight.RLock", "inflight.RUnlock"],
+        "coalescer.run": ["inflight.Lock", "inflight.Unlock"],
+        "coalescer.close": ["closeOnce.Do", "wg.Wait"],
+    },
+}, {
     "file": "internal/remoteclient/client.go",
     "suffixes": "coalescers.Get,coalescers.Set,coalescersMu.Lock,coalescersMu.Unlock,coalescers.Range,coalescers.Reset,c.close,c.submit",
     "expect": {
@@ -53,7 +64,7 @@ FACTS = [{
 INPKG = ["internal/remoteclient/zz_verif_c27.go", "actor/zz_verif_c27.go"]
 TIMEOUT = 900
 MANIFEST = {
-    "level_text": "Kernel-checked theorems over a small-step interleaving model of coalescer.submit/run/close and the failure fan-out, for ALL schedules of any length with any number of sending goroutines, any transport outcome per batch, any resolution of Go's random select, close and shutdown at any point: global FIFO (flushed batches ++ writer batch ++ channel = acceptance log, C27_fifo), per-thread send order and at-most-once (C27_order), nothing reaches the transport unaccepted (C27_no_phantom), and an exact account of where every accepted message is in a quiescent state (C27_loss_sites). The accounting clause of the property is REFUTED for the current code (C27_refuted; open findings C27-F3 submit racing close, C27-F2 fan-out drops; C27-F1 close abandoning queued batches was fixed by 305110c and is a regression corpus + theorem witnessClose_facts) and proved under the guards no-close and no-handler-drop (C27_partial) and, for schedules WITH close, under the guard that no submit call straddles the close (C27_close_complete: the writer exits only on an empty channel; C27_partial_close). client.getCoalescer's double-checked creation is modelled too (C27_single_coalescer: at most one coalescer per destination under every interleaving of racing first senders), tied by a call-order fact re-extracted from client.go and by `gc` cases (n goroutines racing the first send behind the held creation mutex: distinct coalescers returned, flushes in flight at once, per-sender order). The model is tied to the code by running the real Client.RemoteTell / coalescer goroutine / Client.Close against a gate-controlled in-process proto server and comparing batch boundaries, submit results, handler calls and the channel leftover with the model's output set.",
+    "level_text": "Kernel-checked theorems over a small-step interleaving model of coalescer.submit/run/close and the failure fan-out, for ALL schedules of any length with any number of sending goroutines, any transport outcome per batch, any resolution of Go's random select, close and shutdown at any point: global FIFO (flushed batches ++ writer batch ++ channel = acceptance log, C27_fifo), per-thread send order and at-most-once (C27_order), nothing reaches the transport unaccepted (C27_no_phantom), and an exact account of where every accepted message is in a quiescent state (C27_loss_sites). The full property holds on the model of the current code (C27_holds : C27_full): with an error handler configured, every accepted message of every quiescent state of every schedule was delivered or dead-lettered — the writer exits only on an empty channel (C27_close_complete, barrier of fix 7baca6b after fix 305110c) and the error handler never drops a hand-off (C27_no_handler_drop, fix f8d2f6b). The three former findings C27-F1/F2/F3 are regression theorems (witnessClose_facts, witnessFqFull_facts, witnessSysDown_facts, witnessRace_facts), regression corpora and seeded reverts. client.getCoalescer's double-checked creation is modelled too (C27_single_coalescer: at most one coalescer per destination under every interleaving of racing first senders), tied by a call-order fact re-extracted from client.go and by `gc` cases (n goroutines racing the first send behind the held creation mutex: distinct coalescers returned, flushes in flight at once, per-sender order). The model is tied to the code by running the real Client.RemoteTell / coalescer goroutine / Client.Close against a gate-controlled in-process proto server and comparing batch boundaries, submit results, handler calls and the channel leftover with the model's output set.",
     "level_note": "partial: (1) the tie is a differential on controller-serialised schedules (the controller acts only while the writer is parked in a flush or idle); finer interleavings of submit's three steps with the writer (e.g. the submit-racing-close witness) exist only in the model; (2) enqueueCoalescedFailure / drainCoalescedFailures (actor/remote_server.go) are driven on a real started actor system through an in-package accessor (queue replaced by a small one without drain goroutine so that fill/drop is deterministic; dead letters read from the event stream) separately from the coalescer; the end-to-end chain coalescer -> handler -> dead letter is composed in the model only; dead-letter publication itself is C18; (3) the remote node's in-order handling of a batch (remoteTellHandler's loop, handleConn's sequential read loop) and TCP are assumptions; (4) a flush that fails after the remote node already processed it is both delivered and dead-lettered (at-most-once is about the coalescer never re-sending).",
     "technique": "Lean 4 proof (inductive invariants over a small-step interleaving semantics) + model/implementation differential on gate-controlled runs of the real goroutines",
 }
@@ -152,6 +163,12 @@ def _gen_fq(rng):
     return "fq %d %s" % (size, " ".join(ops))
 
 
+def _structured_race(long=False):
+    # real-goroutine stress for submit racing close; on the reverted code it loses a message roughly once
+    # per 7 s of stress, so the search phase (entered when FACTS / correspondence break) runs it for long
+    return ["race 5000 32"] * 8 if long else ["race 400 32"]
+
+
 def _structured_gc():
     return ["gc 2 1", "gc 2 2", "gc 3 2", "gc 4 2", "gc 4 4", "gc 6 3"]
 
@@ -163,12 +180,12 @@ def _structured_fq():
 def gen_cases(rng, tier):
     n = 140 if tier == "quick" else 2500
     m = 25 if tier == "quick" else 400
-    return _structured() + _structured_gc() + _structured_fq() + [_gen_one(rng) for _ in range(n)] + [_gen_fq(rng) for _ in range(m)]
+    return _structured() + _structured_gc() + _structured_race() + _structured_fq() + [_gen_one(rng) for _ in range(n)] + [_gen_fq(rng) for _ in range(m)]
 
 
 def search_cases(rng, tier):
     n = 600 if tier == "quick" else 4000
-    return _structured() + _structured_gc() * 4 + _structured_fq() + [_gen_one(rng, big=(i % 3 == 0)) for i in range(n)] + [_gen_fq(rng) for _ in range(60)]
+    return _structured_race(long=True) + _structured() + _structured_gc() * 4 + _structured_fq() + [_gen_one(rng, big=(i % 3 == 0)) for i in range(n)] + [_gen_fq(rng) for _ in range(60)]
 
 
 def _gc_canon(line):
@@ -224,6 +241,8 @@ def oracle(case, impl, judge):
         return None
     if judge is not None:
         return None if judge.startswith("ok") else judge
+    if case.startswith("race"):
+        return None if impl == "lost=0" else "bad silently-dropped: %s accepted message(s) stayed in the channel after close (submit racing close)" % impl
     if case.startswith("gc"):
         if " | B " not in impl:
             return "bad unparsable output: " + impl
@@ -265,6 +284,8 @@ def oracle(case, impl, judge):
 def classify(case, impl, why):
     """C27-F1 (fixed by 305110c, so a VIOLATION if it shows again): every unaccounted accepted message
     is one that was still sitting in the channel buffer when the writer goroutine exited after close."""
+    if case.startswith("race") and why and why.startswith("bad"):
+        return "C27-F3"   # fixed by 7baca6b: a VIOLATION if it shows again
     if case.startswith("fq") and why and why.startswith("bad fanout-dropped"):
         # C27-F2: the only way a handed-off message is not dead-lettered is a hand-off made while the
         # queue already held <size> entries or while shuttingDown was set
@@ -295,6 +316,8 @@ def classify(case, impl, why):
 
 
 def is_trivial(case, impl):
+    if case.startswith("race"):
+        return not impl.startswith("lost=")
     if case.startswith("gc"):
         return " | B " not in impl
     if case.startswith("fq"):
@@ -303,6 +326,8 @@ def is_trivial(case, impl):
 
 
 def tag(case, impl):
+    if case.startswith("race"):
+        return "race"
     if case.startswith("gc"):
         return "gc:n" + case.split()[1]
     if case.startswith("fq"):
@@ -323,6 +348,8 @@ def tag(case, impl):
 
 def shrink(case):
     f = case.split()
+    if f[0] == "race":
+        return
     if f[0] == "gc":
         if int(f[1]) > 2:
             yield "gc %d %s" % (int(f[1]) - 1, f[2])
